@@ -611,10 +611,7 @@ func (a *analysis) checkRecovery(x *verifkit.Exec) {
 		}
 	}
 	// R5: a fatal cause degrades the pipeline and is never recovered from
-	if fatalInjected != "" && !x.StepCapHit && x.W.SlowestBusyAnswer() < 5*time.Second && len(x.Armed) == 0 {
-		// (not under an armed preemption either: with node goroutines held at a statement the restarted run's source opens
-		// only AFTER its Running status is written, and the attribution of opens to recovery restarts above relies on the
-		// usual order)
+	if fatalInjected != "" && !x.StepCapHit && x.W.SlowestAnswer() < 5*time.Second {
 		for _, s := range sts {
 			if s.seq > fatalInjectedSeq && s.status == "Recovering" {
 				a.bad("C10/fatal-cause-recovered/"+p.Engine, "%s (event #%d), a fatal cause, but the pipeline went to Recovering (event #%d) instead of Degraded", fatalInjected, fatalInjectedSeq, s.seq)
@@ -705,7 +702,9 @@ func (a *analysis) checkRecovery(x *verifkit.Exec) {
 	// (the moment recovery gave up is only visible through the failure event that follows its status write: judged only
 	// when the store and the plugins answered promptly, otherwise a write the explorer kept pending for minutes of virtual
 	// time moves that event out of the window)
-	if maxRetries > 0 && fatalInjected == "" && forceless(a.evs) && len(p.Ctl) == 0 && !x.StepCapHit && x.W.SlowestBusyAnswer() < 5*time.Second {
+	// (and not under an armed preemption: with node goroutines held at a statement the restarted run's source opens only
+	// AFTER its Running status is written, and the attribution of opens to recovery restarts above relies on the usual order)
+	if maxRetries > 0 && fatalInjected == "" && forceless(a.evs) && len(p.Ctl) == 0 && !x.StepCapHit && x.W.SlowestBusyAnswer() < 5*time.Second && len(x.Armed) == 0 {
 		for _, e := range a.evs {
 			if e.Comp == "lc" && e.Kind == "failure" && strings.Contains(e.Arg, "failed to recover pipeline") {
 				n := 0
@@ -723,7 +722,7 @@ func (a *analysis) checkRecovery(x *verifkit.Exec) {
 	}
 	// R7: a transient cause leads to an automatic restart: a run whose first failure is transient, with nobody stopping
 	// the pipeline, must not simply end stopped (no Recovering / Degraded status, no restart)
-	if transientSeq >= 0 && fatalInjected == "" && userStopSeq < 0 && shutdownSeq < 0 && forceless(a.evs) && len(p.Ctl) == 0 && !x.StepCapHit && x.W.SlowestBusyAnswer() < 5*time.Second {
+	if transientSeq >= 0 && fatalInjected == "" && userStopSeq < 0 && shutdownSeq < 0 && forceless(a.evs) && len(p.Ctl) == 0 && !x.StepCapHit && x.W.SlowestAnswer() < 5*time.Second {
 		handled := false
 		for _, s := range sts {
 			if s.seq > transientSeq && (s.status == "Recovering" || s.status == "Degraded") {
